@@ -28,7 +28,7 @@ impl STMConfig {
             STMConfig::Freq(f) => Ok(SamplingConfig::new(f * size as f32)),
 
             STMConfig::Period(p) => {
-                if p.as_nanos() % size as u128 != 0 {
+                if size == 0 || p.as_nanos() % size as u128 != 0 {
                     return Err(AUTDDriverError::STMPeriodInvalid(size, p));
                 }
                 Ok(SamplingConfig::new(p / size as u32))
@@ -39,6 +39,9 @@ impl STMConfig {
             }
 
             STMConfig::PeriodNearest(duration) => {
+                if size == 0 {
+                    return Err(AUTDDriverError::STMPeriodInvalid(size, duration));
+                }
                 Ok(SamplingConfig::new(duration / size as u32).into_nearest())
             }
         }
